@@ -241,3 +241,14 @@ void run_case(ByteSource& s, CaseInfo& ci) {
   }
 }
 void enumerate(const Emit&, const std::string&) {}
+
+// fixed finding 15cf8dd: NaN table entries of PrepareEvolve(buf,t0,t1) for coincident levels
+void regressions() {
+  for (int d = 2; d <= 6; d++) for (double c0 : {0.0, 1.5}) {
+    int np = d * (d - 1) / 2;
+    SU_vector H(d); H[0] = c0;
+    std::vector<double> buf(2 * np, 5e55);
+    H.PrepareEvolve(buf.data(), -8.0, 0.0);
+    for (int p = 0; p < np; p++) CHECK(buf[p] == 1.0 && buf[np + p] == 0.0, fmt("C11|interval|nonfinite-table|d=%d", d), "regression: slot %d = (%g,%g) for fully degenerate H", p, buf[p], buf[np + p]);
+  }
+}
